@@ -9,15 +9,17 @@ EXTENDS Naturals, Sequences, SequencesExt, Text, AvroSchema
 
 RECURSIVE CanonTree(_)
 CanonTree(t) ==
-  CASE t.k \in PrimKinds -> [k |-> t.k]
+  CASE t.k \in PrimKinds -> [k |-> t.k, lt |-> NoLt]
     [] t.k = "ref" -> [k |-> "ref", name |-> t.name]
     [] t.k = "record" -> [k |-> "record", name |-> t.name,
                           fields |-> MapSeq(LAMBDA f : [name |-> f.name, type |-> CanonTree(f.type)], t.fields)]
     [] t.k = "enum" -> [k |-> "enum", name |-> t.name, syms |-> t.syms]
-    [] t.k = "fixed" -> [k |-> "fixed", name |-> t.name, size |-> t.size]
+    [] t.k = "fixed" -> [k |-> "fixed", name |-> t.name, size |-> t.size, lt |-> NoLt]
     [] t.k = "array" -> [k |-> "array", items |-> CanonTree(t.items)]
     [] t.k = "map" -> [k |-> "map", values |-> CanonTree(t.values)]
     [] t.k = "union" -> [k |-> "union", br |-> MapSeq(CanonTree, t.br)]
+
+MapNames(names) == [n \in DOMAIN names |-> CanonTree(names[n])]
 
 Q == <<34>>            \* the double quote
 Quoted(cp) == Q \o cp \o Q
